@@ -69,12 +69,28 @@ def cases():
         lambda o, i: P("Lateral", this=P("Unnest", expressions=LIST(P("Cast", this=IS(o["x"]), to=P("DataType", this=ENUM("ARRAY"), expressions=LIST(P("DataType", this=ENUM("JSON"))))))),
                        alias=P("TableAlias", this=IS(o["alias"]), columns=LIST("VALUE"))),
         "every element of the input array becomes one row with a VALUE column, under the caller's alias")
+    def flatten_select(o, target, colname="VALUE", explode=True):
+        col = op(o, "col", node("Column", this=NodeV("Identifier", {"this": Const(colname), "quoted": Const(False)}, open=False)))
+        c = op(o, "cast", node("Cast", this=col, to=dtype(target)))
+        lat = node("Lateral", this=node("Explode", this=S("arr"))) if explode else node("Lateral", this=S("other"))
+        node("Select", "stmt", expressions=Lst([c]), **{"from": node("From", this=table("T")), "laterals": Lst([lat])})
+        return c
+
+    for target in ("VARCHAR", "TEXT"):
+        add(f"f.value::{target} over LATERAL FLATTEN extracts the string (->> '$')", "flatten_value_cast_as_varchar",
+            mk(lambda o, target=target: flatten_select(o, target)),
+            lambda o, i: P("JSONExtractScalar", this=IS(o["col"]), expression=P("JSONPath", expressions=LIST(P("JSONPathRoot")))),
+            "a string element converted to text (VARCHAR, or STRING/TEXT which the parser reads as TEXT) loses its JSON quotes")
+    add("f.value::NUMBER over LATERAL FLATTEN stays a cast", "flatten_value_cast_as_varchar",
+        mk(lambda o: flatten_select(o, "DECIMAL")), UNCHANGED, "only a conversion to text unquotes")
+    add("value::VARCHAR without a FLATTEN in the same SELECT stays a cast", "flatten_value_cast_as_varchar",
+        mk(lambda o: flatten_select(o, "VARCHAR", explode=False)), UNCHANGED, "a column that merely happens to be called VALUE is not a FLATTEN output")
     return out
 
 
 def rule_wiring(ctx):
     n = run_cases(ctx, "C11.d", cases())
-    ctx.floor("C11.d wiring cases evaluated", n, 10)
+    ctx.floor("C11.d wiring cases evaluated", n, 14)
 
 
 def rule_cast_extract(ctx):
